@@ -5,7 +5,7 @@ FUNCTIONS = ["codelimit.common.gsm.matcher:match", "codelimit.common.gsm.matcher
 BOUNDED_SKIP = list(FUNCTIONS)   # driven by the harness below through the real engine
 TRUSTED = ["the derivative-based reference semantics in runtime/h_gsm.py"]
 ASSUMPTIONS = []
-BOUND = 'all pattern syntax trees with up to 5 nodes over {a,b,c} (1831 trees; thorough: up to 6 nodes, 6000 sampled of size 6) plus 100 random trees of 5..8 nodes (thorough 1000) x all sequences up to length 5 (thorough 6)'
+BOUND = 'all pattern syntax trees with up to 5 nodes over {a,b,c} (1831 trees) plus a seeded sample of 1200 trees with 6 nodes (thorough: all up to 5 nodes, 6000 sampled of size 6) plus 100 random trees of 5..8 nodes (thorough 1000) x all sequences up to length 5 (thorough 6)'
 RULE = 'match / nfa_match / starts_with compared with a Brzozowski-derivative reference; building must terminate (10 s, recursion); distinct = distinct trees'
 
 
